@@ -395,7 +395,7 @@ def interrupted_oracle(case):
                             named = int.from_bytes(val[:8], "big")
                 if revs and (0 not in revs or named not in revs) and dump_hit is None:
                     dump_hit = ("line %d: after `%s` the Event %s has the records %s (0 = revision record%s): the interrupted ttl pass "
-                            "removed it in part - %s" % (i + 1, next(l for l in case.lines if l.startswith("compact") and case.meta["mask"] in l), e,
+                            "removed it in part - %s" % (i + 1, next((l for l in case.lines if l.startswith("compact") and (case.meta.get("mask") or "") in l), "the compaction"), e,
                                                          sorted(revs), ", naming revision %d" % named if named else "",
                                                          "versions without their revision record" if 0 not in revs else
                                                          "a revision record without the version it names"), INT_SIGNATURE)
